@@ -86,7 +86,8 @@ func randContainer(r *rand.Rand) *tree {
 }
 
 var recOpNames = []string{"Len", "Index", "Index", "Get", "Get", "IndexOrGet", "Set", "Set", "SetByIndex", "Add", "Unset", "Unset",
-	"UnsetByIndex", "UnsetByIndex", "Pop", "Move", "SortKeys", "Load", "Marshal", "Iterate", "Interface", "Index", "Get"}
+	"UnsetByIndex", "UnsetByIndex", "Pop", "Move", "SortKeys", "Load", "Marshal", "Iterate", "Interface", "Index", "Get",
+	"Values", "Properties", "IndexPair", "IndexOrGetWithIdx", "UseNode", "GetByPath", "Cap", "Raw"}
 
 // recent keys / paths of the current trace: operations on what was just touched are where stale
 // bookkeeping (index entries, soft-deleted slots, cursors) shows
@@ -146,6 +147,12 @@ func randOp(r *rand.Rand, doc *tree, approxLen int) astOp {
 	if op.O == "SortKeys" || op.O == "Load" {
 		op.I = r.Intn(2)
 	}
+	if op.O == "UseNode" {
+		op.I = r.Intn(3)
+	}
+	if op.O == "GetByPath" {
+		op.J = r.Intn(4)
+	}
 	v := randTree(r, 2, false)
 	op.V = v.String()
 	return op
@@ -187,7 +194,8 @@ func astrecMain(args []string) int {
 		for i := 0; i < nops; i++ {
 			op := randOp(r, doc, len(doc.Elems))
 			lastLen.reprBefore, lastLen.liveAfter = "", 0
-			obs := applyAstOp(root, &op, r.Intn(2) == 0)
+			rawArg := r.Intn(2) == 0
+			obs := applyAstOp(root, &op, rawArg)
 			ops++
 			path := []interface{}{}
 			for _, st := range op.Path {
@@ -199,7 +207,7 @@ func astrecMain(args []string) int {
 			}
 			enc(map[string]interface{}{"ev": "op", "path": path,
 				"op":  map[string]interface{}{"o": op.O, "i": op.I, "j": op.J, "key": op.Key, "v": treeFromText(op.V).toJSON()},
-				"obs": obs, "repr": lastLen.reprBefore, "live": lastLen.liveAfter})
+				"obs": obs, "repr": lastLen.reprBefore, "live": lastLen.liveAfter, "raw": rawArg})
 		}
 		fin := applyAstOp(root, &astOp{O: "Marshal"}, false)
 		enc(map[string]interface{}{"ev": "end", "text": fin})
